@@ -283,4 +283,4 @@ def run_case(case):
 def run_task(task):
     return batch.run_batched(task["cases"], _judge_factory(task["fmt"]),
                              label=lambda c: "ok:hist:" + c["hist"] if "hist" in c else "ok:%s:%s:%s" % (c["pos"], c["fmt"], "bytes" if "b" in c else "str"),
-                             key=lambda c: repr((c.get("s"), c.get("b"), c.get("pos"), c.get("fmt"), c.get("hist"))))
+                             key=lambda c: repr((c.get("s"), c.get("b"), c.get("pos"), c.get("fmt"), c.get("hist"))), strict_batch=True)
